@@ -226,6 +226,11 @@ func (vm *VM) Initialize(
 	snowApp.AddRejectedSub(event.SubscriptionFunc[*chain.OutputBlock]{
 		NotifyF: func(ctx context.Context, b *chain.OutputBlock) error {
 			vm.mempool.Add(ctx, b.StatelessBlock.Txs)
+			// Re-added transactions bypass the admission checks: drop those that expired while
+			// their block was processing (the accepted sibling has already pruned the mempool).
+			if lastAccepted, err := vm.LastAcceptedBlock(ctx); err == nil {
+				vm.mempool.SetMinTimestamp(ctx, lastAccepted.Tmstmp)
+			}
 			return nil
 		},
 	})
